@@ -293,7 +293,7 @@ class World:
         if t["kind"] == "expr":
             from mathy_core.parser import ExpressionParser
             try:
-                self.root = ExpressionParser().parse(t["text"])
+                self.root = core.bounded_parse(t["text"])
             except Exception:
                 self.root = build([None, None])
             # displayed trees are usually rewrite results: they contain clone()d
